@@ -30,6 +30,10 @@ pub fn run_one(
     // A fresh thread per run: thread-local RNG and hasher state start from
     // the run's entropy stream.
     std::thread::Builder::new().stack_size(16 << 20).spawn(move || {
+        #[cfg(feature = "shuttle")]
+        if crate::engd::supported(&property) {
+            return crate::engd::run(&property, seed, &mask, &scratch)
+        }
         if let Some(profile) = props::enga_profile(&property, tier) {
             return crate::enga::run(seed, &profile, &mask, &scratch)
         }
